@@ -132,7 +132,8 @@ def part_a(chk, quick):
         mod = f.read()
     cfg = flow.cfg_text(spec="SpecA", constants={"MaxLen": n},
                         invariants=["PathContract", "NormalizeContract", "JoinContract", "Emit"])
-    flow.run_g(chk, mod, cfg, replay_a, nontrivial=nontrivial_a, sample_every=50021, workers=8, timeout=3000)
+    flow.run_g(chk, mod, cfg, replay_a, nontrivial=nontrivial_a, sample_every=50021, workers=8, timeout=3000,
+               extra_args=("-maxSetSize", "3000000"))
     chk.note("string_bound", n)
     # V: enumerated short strings, file:-prefixed ones and random longer ones
     import itertools
